@@ -23,6 +23,7 @@ func (Engine) Gen(prop, tier string, r *detsim.Rand) interface{} {
 	}
 	p.Cfg.Clock = simsync.ClockMode(r.Intn(4)) // the last draw: everything else of the plan is what it was before the clock existed
 	p.ExecPanics = r.Chance(1, 3)
+	p.SharedArgs = prop != "C08" && r.Chance(1, 4) // drawn after everything else: earlier plans keep their shape
 	if p.Cfg.StepCap == 0 {
 		p.Cfg.StepCap = 3000000 // a validation of a 3000-level list alone takes tens of thousands of steps
 	}
@@ -142,6 +143,7 @@ func (Engine) Shrink(plan interface{}, try func(interface{}) bool) interface{} {
 			func(p *Plan) bool { ok := p.FreshAt > 0; p.FreshAt = 0; return ok },
 			func(p *Plan) bool { ok := p.Cold; p.Cold = false; return ok },
 			func(p *Plan) bool { ok := p.Young; p.Young = false; return ok },
+			func(p *Plan) bool { ok := p.SharedArgs; p.SharedArgs = false; return ok },
 			func(p *Plan) bool { ok := p.Bystander > 0; p.Bystander = 0; return ok },
 			func(p *Plan) bool { ok := p.Cfg.PYields; p.Cfg.PYields = false; return ok },
 			func(p *Plan) bool { ok := p.Cfg.PostYields; p.Cfg.PostYields = false; return ok },
